@@ -86,6 +86,31 @@ CHECKS = {
              ref='DESIGN.md section 4, C06'),
 }
 
+# what later rounds (seeded-change waves 2-5, coverage analysis) added to each workload
+ADDED = {
+    'C01': ' Later additions: wrong input counts, attempts <= 0, contradicting explicit ok beside partial credit, one subgrader object shared by debug and plain graders, registered class defaults with debug graders.',
+    'C02': ' Later additions: fault table with brace brackets, LinearComparer / transform shape faults, ragged and tensor literals, complex-typed real limits, mis-configured comparers, sibling-referencing lists.',
+    'C03': ' Later additions: em-dash in exponent signs, tab/newline juxtapositions, names with negative superscripts, number literals with every suffix judged relative to their own magnitude.',
+    'C04': ' Later additions: tiny percentage tolerances, -inf/+inf sign table, graders whose only sampled quantity is a numbered variable, debug=True twins, bystander options that must not change the verdict.',
+    'C05': ' Later additions: find_optimal_order driven directly on 4-7 box matrices, sparse grouped submissions, grouped layouts with several answer lists and outer partial_credit=False, SingleListGrader subgraders, debug graders.',
+    'C06': ' Later additions: wide/tall padded problems with 4-8 real rows.',
+    'C07': ' Later additions: nested inner refusals (blank / wrong count) and answer-level messages judged by the all-awarded rule, expect tuples, debug graders.',
+    'C08': ' Later additions: credit-scaling law against the same alternative worth 1, message-origin law, author comparers returning reused dictionaries (incl. zero-credit alternatives), shape-tolerant matrix alternatives, IntervalGrader alternatives at three levels against the documented credit rule.',
+    'C09': ' Later additions: user function overriding a blacklisted default, siblings through DependentSamplers, aborted-parse histories, three/four-box sibling lists, bystander restrictions beside the one under test.',
+    'C10': ' Later additions: tab-inside-token pairs, scope-dependent array dimensions, blank variants of malformed strings, SumGrader/FormulaGrader calls interleaved with the histories.',
+    'C11': ' Later additions: multi-input graders with debug, own-option fingerprints, per-call variable histories on shared subgraders, one comparer object shared by graders, deleted default constants, nested list inference.',
+    'C12': ' Later additions: earlier random functions re-evaluated after later draws, one-point intervals and degenerate rectangle sides exact.',
+    'C13': ' Later additions: suffixes in dependent formulas, siblings needed only by a numbered variable, repeated submissions on one list grader, dangling names with braces.',
+    'C14': ' Later additions: mixed vector/matrix product chains, one-element array exponents, near-integer exponents, dependent samplers under negative_powers=False, identity_dim, tiny non-zero scalars.',
+    'C15': ' Later additions: arctan2 with complex coordinates refused.',
+    'C16': ' Later additions: structural zeros, tiny span coefficients, comparer histories (zero first), constant submissions, shape-collapsing transforms, entries agreeing in some samples only.',
+    'C17': ' Later additions: debug graders, graders without configured answers (expect=None), full credit labelled ok=False.',
+    'C18': ' Later additions: both accept switches, upper-case patterns under case folding, non-default cleaning flags with patterns, debug refusals.',
+    'C19': ' Later additions: cutoffs smaller than finite limits, integer checks next to infinite limits, near-integer limits, metric suffixes in limits, input_positions in arbitrary key order.',
+    'C20': ' Later additions: contradicting explicit ok, construction histories (deleted default constants), NaN for range-restricted numbers, collisions under suppress_warnings, more cross rules (49).',
+}
+
+
 def build():
     props = [json.loads(l) for l in open(os.path.join(HERE, 'properties.jsonl'))]
     checks, na = [], []
@@ -100,7 +125,7 @@ def build():
                 'evidence_file': '/verif/evidence/%s.json' % pid,
                 'replay_cmd_template': '/venv/bin/python -m vf.run %s --replay {path}' % pid,
                 'engine': 'vf',
-                'level_claimed': {'category': 'exploration', 'text': c['text'], 'design_ref': c['ref']},
+                'level_claimed': {'category': 'exploration', 'text': c['text'] + ADDED.get(pid, ''), 'design_ref': c['ref'] + '; section 9.5'},
                 'level_note': c['note'],
                 'technique': c['technique'],
             })
